@@ -54,7 +54,10 @@ FileLen  == SumBytes(1, NN)
 UuidmIdx == IF pre THEN 4 ELSE 3
 LieIdx == CASE lie.who = "moov" -> 2 [] lie.who = "uuidm" -> UuidmIdx [] lie.who = "kid1" -> UuidmIdx + 1
             [] lie.who = "kidLast" -> UuidmIdx + Len(kids) [] lie.who = "tail1" -> NN - Len(tail) + 1 [] OTHER -> 0
-Decl(n) == IF n # LieIdx THEN Size(n)
+\* "uuidmKid": the metadata uuid box AND its last child overstate by the same amount (a consistent pair:
+\* the child still fits its parent, only the grandparent - moov - tells that both lie)
+LieSet == IF lie.who = "uuidmKid" THEN {UuidmIdx, UuidmIdx + Len(kids)} ELSE {LieIdx}
+Decl(n) == IF n \notin LieSet THEN Size(n)
            ELSE CASE lie.cls = "minus1" -> Size(n) - 1 [] lie.cls = "plus4" -> Size(n) + 4 [] lie.cls = "plus100" -> Size(n) + 100
                   [] lie.cls = "zero" -> 0 [] OTHER -> Nodes[n].hdr - 1
 WellFormed == lie.who = "none"
@@ -65,7 +68,7 @@ Init == /\ kids \in SeqsUpTo(KidTypes, MaxKids) /\ tail \in SeqsUpTo(TailTypes, 
         /\ big \in {"none", "moov", "uuidm", "kid1", "tail1"}
         /\ (big = "kid1" => Len(kids) > 0) /\ (big = "tail1" => Len(tail) > 0)
         /\ lie \in Lies
-        /\ (lie.who \in {"kid1", "kidLast"} => Len(kids) > 0) /\ (lie.who = "tail1" => Len(tail) > 0)
+        /\ (lie.who \in {"kid1", "kidLast", "uuidmKid"} => Len(kids) > 0) /\ (lie.who = "tail1" => Len(tail) > 0)
         /\ cons \in {"none", "part", "all"}
         /\ (cons # "all" => \E k \in 1..Len(tail) : tail[k] = "uuidx")      \* only the XMP callback may under-read (the Exif reader consumes its box)
         /\ pre = post
